@@ -164,9 +164,8 @@ func main() -> int
     0
 }
 """]},
-    {"name": "array-dims", "construct": "dimension names of array parameters read directly and captured by closures in several orders",
-     "merges": [("R1", "R"), ("C1", "C"), ("R2", "R"), ("C2", "C"), ("R3", "R"), ("C3", "C"), ("I3", "R3"), ("D4", "R"), ("E4", "C"),
-                ("K4", "K3"), ("D5", "R"), ("R6", "R"), ("C6", "C")],
+    {"name": "array-dims-2d", "construct": "dimension names of a 2-d array parameter read directly and captured by closures in several orders",
+     "merges": [("R1", "R"), ("C1", "C"), ("R2", "R"), ("C2", "C"), ("R3", "R"), ("C3", "C"), ("I3", "R3"), ("R6", "R"), ("C6", "C")],
      "srcs": ["""
 func direct(a[{R}, {C}] : int) -> int { {C} * 100 + {R} }
 func rc(a[{R1}, {C1}] : int) -> () -> int { let func () -> int { {R1} * 100 + {C1} } }
@@ -181,30 +180,11 @@ func at(a[{R3}, {C3}] : int, {K3} : int) -> (int) -> int
         a[r, c] + {K3}
     }
 }
-func two({K4} : int, a[{D4}] : int, b[{E4}] : int) -> () -> int
-{
-    func shape() -> int { {K4} + {E4} * 100 + {D4} };
-    shape
-}
-func sum(t[{D5}] : int) -> () -> int
-{
-    let func () -> int
-    {
-        var s = 0;
-        var i = 0;
-        for (i = 0; i < {D5}; i = i + 1) { s = s * 10 + t[i] };
-        s
-    }
-}
 func main() -> int
 {
     let m = [ [ 0, 1, 2 ], [ 10, 11, 12 ] ] : int;
-    let u = [ 1, 2, 3 ] : int;
-    let v = [ 4, 5, 6, 7, 8 ] : int;
     print(direct(m)); print(rc(m)()); print(width(m)()); print(cr(m, {#1})());
     print(at(m, {#2})(3)); print(at(m, {#2})(2));
-    print(two({#3}, u, v)()); print(two({#3}, v, u)());
-    print(sum(u)()); print(sum(v)());
     0
 }
 """, """
@@ -222,6 +202,42 @@ func at(a[{R3}, {C3}] : int, {K3} : int) -> (int) -> int
         a[r, c] + {K3}
     }
 }
+func main() -> int
+{
+    let m = [ [ 0, 1, 2 ], [ 10, 11, 12 ] ] : int;
+    print(direct(m)); print(rc(m)()); print(width(m)()); print(cr(m, {#1})());
+    print(at(m, {#2})(3)); print(at(m, {#2})(2));
+    0
+}
+"""]},
+    {"name": "array-dims-params", "construct": "dimension names of several array parameters (after other parameters) captured by closures and nested functions",
+     "merges": [("E4", "D5"), ("K4", "K5"), ("D4", "D5"), ("I5", "K4")],
+     "all": [("E4", "D5"), ("K4", "K5")],
+     "srcs": ["""
+func two({K4} : int, a[{D4}] : int, b[{E4}] : int) -> () -> int
+{
+    func shape() -> int { {K4} + {E4} * 100 + {D4} };
+    shape
+}
+func sum({K5} : int, t[{D5}] : int) -> () -> int
+{
+    let func () -> int
+    {
+        var s = {K5} + 0;
+        var {I5} = 0;
+        for ({I5} = 0; {I5} < {D5}; {I5} = {I5} + 1) { s = s * 10 + t[{I5}] };
+        s
+    }
+}
+func main() -> int
+{
+    let u = [ 1, 2, 3 ] : int;
+    let v = [ 4, 5, 6, 7, 8 ] : int;
+    print(two({#3}, u, v)()); print(two({#3}, v, u)());
+    print(sum(0, u)()); print(sum(1, v)());
+    0
+}
+""", """
 func two({K4} : int, a[{D4}] : int, b[{E4}] : int) -> () -> int
 {
     let d0 = {D4};
@@ -229,26 +245,23 @@ func two({K4} : int, a[{D4}] : int, b[{E4}] : int) -> () -> int
     func shape() -> int { {K4} + e0 * 100 + d0 };
     shape
 }
-func sum(t[{D5}] : int) -> () -> int
+func sum({K5} : int, t[{D5}] : int) -> () -> int
 {
     let d0 = {D5};
     let func () -> int
     {
-        var s = 0;
-        var i = 0;
-        for (i = 0; i < d0; i = i + 1) { s = s * 10 + t[i] };
+        var s = {K5} + 0;
+        var {I5} = 0;
+        for ({I5} = 0; {I5} < d0; {I5} = {I5} + 1) { s = s * 10 + t[{I5}] };
         s
     }
 }
 func main() -> int
 {
-    let m = [ [ 0, 1, 2 ], [ 10, 11, 12 ] ] : int;
     let u = [ 1, 2, 3 ] : int;
     let v = [ 4, 5, 6, 7, 8 ] : int;
-    print(direct(m)); print(rc(m)()); print(width(m)()); print(cr(m, {#1})());
-    print(at(m, {#2})(3)); print(at(m, {#2})(2));
     print(two({#3}, u, v)()); print(two({#3}, v, u)());
-    print(sum(u)()); print(sum(v)());
+    print(sum(0, u)()); print(sum(1, v)());
     0
 }
 """]},
@@ -632,9 +645,12 @@ def run_scope_family(ctx, nevrun):
             detail["expected_like_distinct_spelling"] = evaldiff.short(b)
             detail["distinct_source"] = distinct[c["template"]][1]["source"]
             ctx.violation("scope-meta:%s" % tag,
-                          "scoping template %s (%s): spelling `%s` (binders %s share a name; lexical scoping gives every use the same binder as "
-                          "before) behaves differently from the spelling with all binders distinct%s%s" % (
-                              c["template"], c["construct"], c["spelling"], c["merged"] or "-",
+                          "scoping template %s (%s): spelling `%s` (%s) behaves differently from the spelling with all binders distinct%s%s" % (
+                              c["template"], c["construct"], c["spelling"],
+                              ("closures read the immutable binders through a let copy made in the defining scope" + (
+                                  "; binders %s share a name" % c["merged"] if c["merged"] else "")) if c["spelling"].startswith("alt") else
+                              ("binders %s share a name; lexical scoping gives every use the same binder as before" % c["merged"]) if c["merged"] else
+                              "all binders renamed injectively",
                               "" if mem == SCOPE_HEAPS[0] else " (heap %d cells)" % mem,
                               mini or ": %s instead of %s" % (evaldiff.short(o)["printed"] if o["kind"] == "RESULT" else evaldiff.short(o), evaldiff.short(b)["printed"])), detail)
     ctx.count(evaluations=stats["runs"], nontrivial=len([c for c in cases if c["spelling"] != "distinct"]))
